@@ -4,6 +4,8 @@ import (
 	"fmt"
 	"go/ast"
 	"go/types"
+	"os"
+	"path/filepath"
 	"reflect"
 	"regexp"
 	"sort"
@@ -289,6 +291,107 @@ func runSVG(c *Ctx, r *Reporter) {
 				}
 			}
 			r.Check(reads, "svg.Push#own-attr:"+t, p.Rel(pushFn.Pos()), "Push looks at the element's own attributes before it applies the pen style", "elements of type "+t+" are created with attributes of their own (e.g. the colour of clear / gridn), but Push never reads "+t+".Attr before calling setAttr: a pending pen style overwrites them")
+		}
+	}
+	// the pending list: once Push has handed it to a group of the document, the platform starts a new one. Every
+	// store to rt.elements is nil, or an append onto the current list; a reslice (`rt.elements[:0]`) keeps the
+	// backing array the group already holds, so the next shape overwrites an element of the finished group.
+	ne := 0
+	for _, fn := range ssaFuncsOf(p, pkg) {
+		k := 0
+		for _, b := range fn.Blocks {
+			for _, ins := range b.Instrs {
+				st, ok := ins.(*ssa.Store)
+				if !ok {
+					continue
+				}
+				fa, ok := st.Addr.(*ssa.FieldAddr)
+				if !ok {
+					continue
+				}
+				owner, fname := fieldAddrInfo(fa)
+				if owner == nil || owner.Obj().Name() != "GraphicsPlatform" || fname != "elements" {
+					continue
+				}
+				ne++
+				k++
+				good, what := false, ""
+				switch v := st.Val.(type) {
+				case *ssa.Const:
+					good = v.IsNil()
+				case *ssa.Call:
+					if bi, ok := v.Call.Value.(*ssa.Builtin); ok && bi.Name() == "append" && len(v.Call.Args) == 2 {
+						if ld, ok := v.Call.Args[0].(*ssa.UnOp); ok {
+							if fa2, ok := ld.X.(*ssa.FieldAddr); ok && fa2.Field == fa.Field && (fa2.X == fa.X || sameValueExpr(fa2.X, fa.X, 4)) {
+								good = true
+							}
+						}
+						what = "an append onto something other than the pending list itself"
+					}
+				case *ssa.Slice:
+					what = "a reslice, which keeps the backing array"
+				case *ssa.MakeSlice:
+					good = true
+				}
+				if what == "" {
+					what = "`" + st.Val.String() + "`"
+				}
+				r.Check(good, fmt.Sprintf("svg.%s#pending-list[%d]", strings.TrimPrefix(ssaDisplayName(fn), "(*GraphicsPlatform)."), k), p.Rel(instrPos(st)),
+					"the pending list is reset to nil or extended by one shape", "the pending list of shapes is assigned "+what+": a list that Push has handed to a group of the document must not be reused — "+
+						"with `rt.elements[:0]` the next shape overwrites an element of the finished group (the background of clear or a grid disappears and the next shape is drawn twice)")
+			}
+		}
+	}
+	if ne < 5 {
+		r.Undecided("expected the drawing methods and Push to assign rt.elements (found %d stores)", ne)
+	}
+	// sibling agreement with the browser runtime: every canvas style property that the JavaScript gridn overrides
+	// while it draws (and restores afterwards) is a pen attribute the grid must not inherit; the SVG Gridn has to
+	// set the matching attribute on the grid's own group (conditionally is fine: the default pen needs no override).
+	if js, err := os.ReadFile(filepath.Join(c.Repo, "frontend", "play", "index.js")); err != nil {
+		r.Note("frontend/play/index.js not readable: sibling clause for gridn skipped (%v)", err)
+	} else if body := jsFunctionBody(string(js), "gridn"); body == "" {
+		r.Undecided("function gridn not found in frontend/play/index.js")
+	} else if fd, sf := method("Gridn"); sf != nil {
+		jsProps := map[string]string{"strokeStyle": "Stroke", "lineWidth": "StrokeWidth", "setLineDash": "StrokeDashArray", "fillStyle": "Fill", "lineCap": "StrokeLinecap"}
+		set := map[string]bool{}
+		for _, b := range sf.Blocks {
+			for _, ins := range b.Instrs {
+				st, ok := ins.(*ssa.Store)
+				if !ok {
+					continue
+				}
+				fa, ok := st.Addr.(*ssa.FieldAddr)
+				if !ok {
+					continue
+				}
+				if owner, fname := fieldAddrInfo(fa); owner != nil && owner.Obj().Name() == "Attr" {
+					// the Attr of the group (not of a line)
+					if outer, ok := fa.X.(*ssa.FieldAddr); ok {
+						if o2, _ := fieldAddrInfo(outer); o2 != nil && o2.Obj().Name() == "Group" {
+							set[fname] = true
+						}
+					}
+				}
+			}
+		}
+		var props []string
+		for js := range jsProps {
+			props = append(props, js)
+		}
+		sort.Strings(props)
+		nsib := 0
+		for _, jp := range props {
+			if !regexp.MustCompile(`ctx\.` + jp + `\s*(=|\()`).MatchString(body) {
+				continue
+			}
+			nsib++
+			attr := jsProps[jp]
+			r.Check(set[attr], "svg.Gridn#sibling-style:"+attr, p.Rel(fd.Decl.Pos()), "the grid's own group sets "+attr+", as the browser runtime overrides ctx."+jp+" while drawing the grid",
+				"the browser runtime's gridn overrides ctx."+jp+" while it draws the grid, but the SVG Gridn never sets "+attr+" on the grid's group: pushed under a pen with that attribute changed, the grid inherits it (`width 3; dash 2 2; gridn 50 \"red\"` draws thick dashed grid lines in the SVG only)")
+		}
+		if nsib == 0 {
+			r.Undecided("frontend/play/index.js: gridn overrides no canvas style property (sibling clause found nothing to compare)")
 		}
 	}
 	// R-DEADSTORE on style fields
@@ -740,3 +843,28 @@ func derivesFromParam(v ssa.Value, prm *ssa.Parameter, depth int) bool {
 var axisWord = regexp.MustCompile(`\b(x|y|width|height|radius|radiusX|radiusY)\b|rt\.(x|y)\b`)
 
 func mentionsAxis(s string) bool { return axisWord.MatchString(s) }
+
+// jsFunctionBody returns the text between the braces of `function <name>(`…, "" if not found.
+func jsFunctionBody(src, name string) string {
+	i := strings.Index(src, "function "+name+"(")
+	if i < 0 {
+		return ""
+	}
+	j := strings.Index(src[i:], "{")
+	if j < 0 {
+		return ""
+	}
+	depth := 0
+	for k := i + j; k < len(src); k++ {
+		switch src[k] {
+		case '{':
+			depth++
+		case '}':
+			depth--
+			if depth == 0 {
+				return src[i+j+1 : k]
+			}
+		}
+	}
+	return ""
+}
